@@ -25,6 +25,7 @@ EXPLANATION = (
 EXPLANATION += ' C17.R1 also requires RemoveCallback to compare every field AddCallback stores. C17.R5 (decision tables by conditional constant propagation over the enumerators): an explicit Sum view gives each instrument type the monotonicity the default selection gives it; MetricCollector::GetAggregationTemporality returns cumulative on every path for (delta, synchronous gauge).'
 ROUND2_EXPLANATION = (' C17.R8: every local of an ObserverResult type used in the callback loop of ObservableRegistry::Observe is created inside the iteration that uses it (strict). Shared C06.R9: folding accumulates.')
 ROUND2_EXPLANATION += (' C17.R4 also: the value stored into the per-collector delta table is the result of the Diff call itself, not one of its operands.')
+ROUND2_EXPLANATION += (" C17.R4 also: every method of AsyncMetricStorage touches the cumulative / delta table members only while holding the storage lock; in Record's loop every table lookup / update is keyed by the iteration element's own attributes and Aggregate receives its own value. C17.R5 folds a helper that computes the monotonicity flag under the pinned instrument type.")
 EXPLANATION += ROUND2_EXPLANATION
 NOT_DECIDED = 'numeric deltas across readers over arbitrary histories.'
 
@@ -230,6 +231,74 @@ def rule_r3(ck, prog, rule='C17.R3'):
             ok = strip_casts(f, rhs).get('id') == f.params[0]['id']
         ck.verdict(ok, rule, f, 'aggregate-sets-all', None, 'valid flag, value and timestamp set under the lock' if ok else
                    'Aggregate does not set the valid flag, the value (from the parameter) and the timestamp under the lock')
+
+
+def rule_r4_tables(ck, prog, rule='C17.R4', cls='sdk::metrics::AsyncMetricStorage'):
+    """(a) LOCK: every method of the storage touches the cumulative / delta table members only while holding the storage lock
+    (Record runs on the collecting thread of one reader while another reader's Collect swaps the delta table);
+    (b) per attribute set: in Record's loop the key of every table lookup / update is the iteration element's own key and the value
+    aggregated is the element's own value."""
+    rec = prog.record(cls)
+    tables = [fd['name'] for fd in rec['fields'] if 'AttributesHashMap' in fd['t']]
+    locks = [fd['name'] for fd in rec['fields'] if 'mutex' in fd['t'].lower() or 'SpinLock' in fd['t']]
+    if len(tables) < 2 or not locks:
+        raise AnalysisBroken('%s: table members / lock member not found' % cls)
+    n_acc = 0
+    for f in sorted([x for x in prog.funcs.values() if x.cls == rec['qn'] and x.kind not in ('ctor', 'dtor') and not x.d.get('lambda')], key=lambda x: (x.line, x.key)):
+        g = Graph(prog, f, inline=None, sync_lambdas=True)
+        held = held_locks(g)
+        acc = [p for p in g.points if p.n is not None and p.n['k'] == 'member' and len(access_path(p.f, p.n['i'], p.ctx)) == 2 and
+               access_path(p.f, p.n['i'], p.ctx)[0] == 'this' and access_path(p.f, p.n['i'], p.ctx)[1] in tables]
+        if not acc:
+            continue
+        n_acc += 1
+        unl = [p for p in acc if not any(l == 'this.' + lk for lk in locks for l in held.get(p.id, ()))]
+        inst = f.key.split(f.name, 1)[1][:12] if '<' in f.key.split(f.name, 1)[1][:2] else ''
+        ck.verdict(not unl, rule, f, 'tables-locked:%s%s' % (f.name, inst.split('(')[0]), (unl or acc)[0].n, 'tables touched under %s' % locks[0] if not unl else
+                   'AsyncMetricStorage::%s touches %s without holding %s: a Record of one collection and the table swap of another reader\'s Collect race (lost or doubled deltas, use after free)' %
+                   (f.name, access_path(unl[0].f, unl[0].n['i'], unl[0].ctx)[1], locks[0]))
+    if not n_acc:
+        raise AnalysisBroken('%s: no method touches the tables' % cls)
+    for f in prog.functions(cls + '::Record'):
+        g = Graph(prog, f, inline=None, sync_lambdas=False)
+        rd = reaching_defs(g)
+        loops = [n for n in f.nodes if n['k'] == 'forrange']
+        if not loops:
+            ck.inconclusive(rule, f, 'keyed-by-own-attributes', None, 'Record does not walk the measurements with a range-for')
+            continue
+        var = loops[0]['var']
+        body = set(f.subtree(loops[0]['body']))
+        site = 'keyed-by-own-attributes<%s>' % ('long' if 'Record<long' in f.key else 'double')
+        bad = None
+        cnt = 0
+
+        def elem_field(idx, ctx, want):
+            # the expression is (through once-initialised locals / references) <loop variable>.first / .second
+            for (sf, sn, sc) in origins(g, rd, f, idx, ctx):
+                ap = access_path(sf, sn['i'], sc)
+                if len(ap) == 2 and ap[0].startswith('local:') and ap[0].split(':')[1] == str(var) and ap[1] == want:
+                    continue
+                return False
+            return True
+        for p in g.points:
+            n = p.n
+            if n is None or n['k'] != 'call' or p.f is not f or n['i'] not in body:
+                continue
+            nm = strip_targs(n.get('c', '')).rsplit('::', 1)[-1]
+            if n.get('obj') is not None and access_path(f, n['obj'], p.ctx)[:1] == ('this',) and access_path(f, n['obj'], p.ctx)[1:2] and \
+                    access_path(f, n['obj'], p.ctx)[1] in tables and nm in ('Get', 'Set', 'Has', 'GetOrSetDefault') and n.get('args'):
+                cnt += 1
+                if not elem_field(n['args'][0], p.ctx, 'first'):
+                    bad = (n, '%s(%s) on %s is keyed by something other than the attributes of the measurement being recorded' % (nm, path_str(access_path(f, n['args'][0], p.ctx)), access_path(f, n['obj'], p.ctx)[1]))
+            elif nm == 'Aggregate' and n.get('virt') and n.get('args'):
+                cnt += 1
+                if not elem_field(n['args'][0], p.ctx, 'second'):
+                    bad = (n, 'the value aggregated is not the value observed for this attribute set')
+        if cnt < 3:
+            ck.inconclusive(rule, f, site, loops[0], 'table lookups / Aggregate call in the loop not recognised (%d found)' % cnt)
+            continue
+        ck.verdict(bad is None, rule, f, site, bad[0] if bad else loops[0], 'every table access in the loop uses the element\'s own key, Aggregate its own value (%d sites)' % cnt if bad is None else
+                   'AsyncMetricStorage::Record: %s: totals of one attribute set are compared with / stored under another' % bad[1])
 
 
 def rule_r4(ck, prog, rule='C17.R4'):
@@ -580,7 +649,7 @@ def run(ck, prog):
     ck.doc('C17.R1', 'registry: list under its mutex; callbacks invoked under the lock from the registered list, once per record; destructor cleans up; removal matches the whole registration', 9)
     ck.doc('C17.R2', 'Meter::Collect: Observe precedes every storage Collect', 1)
     ck.doc('C17.R3', 'LastValue Merge/Diff tie-break orientation; Aggregate sets valid/value/timestamp under the lock', 6)
-    ck.doc('C17.R4', 'AsyncMetricStorage::Record updates cumulative and delta tables; delta = previous->Diff(current)', 2)
+    ck.doc('C17.R4', 'AsyncMetricStorage::Record updates cumulative and delta tables; delta = previous->Diff(current); tables only under the storage lock; lookups keyed by the element being recorded', 6)
     ck.doc('C17.R5', 'decision tables: explicit Sum view monotonicity = default selection; sync gauge never gets delta temporality', 5)
     ck.doc('C17.R6', 'the collector\'s per-meter callback never stops the iteration; CleanupCallback erases every record of the destroyed instrument', 2)
     ck.doc('C17.R8', 'every callback observes into a result object created in its own iteration', 1)
@@ -593,6 +662,7 @@ def run(ck, prog):
     rule_r2(ck, prog)
     rule_r3(ck, prog)
     rule_r4(ck, prog)
+    rule_r4_tables(ck, prog)
     rule_r1_identity(ck, prog)
     rule_r5(ck, prog)
     rule_r6(ck, prog)
